@@ -26,6 +26,14 @@ func (sc snappyCodec) Encode(src, dst []byte) ([]byte, uint32) {
 }
 
 func (sc snappyCodec) Decode(src, dst []byte) ([]byte, uint32, error) {
+	// snappy.Decode allocates the length the chunk claims before looking
+	// at its data: refuse a claim the chunk cannot live up to (a copy
+	// element yields at most 64 bytes from 3)
+	if n, err := snappy.DecodedLen(src); err != nil {
+		return nil, 0, err
+	} else if uint64(n) > 32*uint64(len(src)) {
+		return nil, 0, snappy.ErrCorrupt
+	}
 	chunk, err := snappy.Decode(dst[len(dst):cap(dst)], src)
 	if err != nil {
 		return nil, 0, err
